@@ -308,7 +308,7 @@ func driveC16(o opts) error {
 			// case 0 is scripted: history, no forgetting, and in its first round the exact sequence "notification while
 			// connected; unreachable while a set and a map of a monitored row change; back; quiet second cut"
 			scripted := ci == 0
-			historyMode := g.Chance(0.4) || scripted
+			historyMode := g.Chance(0.4) || scripted || ci%5 == 4
 			var hist *c16History
 			record := func() {}
 			if historyMode {
@@ -403,8 +403,18 @@ func driveC16(o opts) error {
 			// monitors on disjoint table groups
 			tabs := g.R.Perm(3) // P, C, Q; M is left unmonitored or joins the first group
 			nm := 1 + g.Intn(3)
-			if historyMode {
+			// history mode has one monitor (the only arrangement in which the client may resume from its last id), except in
+			// every third history case: two or three monitor_cond_since monitors, for which a reconnecting client must ask
+			// for everything again (a server that knows the ids it sends would otherwise answer with a difference)
+			multiHist := historyMode && !scripted && (ci%5 == 4 || ci%3 == 2)
+			if historyMode && !multiHist {
 				nm = 1
+			}
+			if multiHist {
+				if nm == 1 {
+					nm = 2
+				}
+				w.Count("mode:history with several monitors")
 			}
 			groups := [][]string{{}, {}, {}}[:nm]
 			for i, ti := range tabs {
